@@ -10,19 +10,140 @@ HERE = os.path.dirname(os.path.dirname(os.path.abspath(__file__)))
 BFS = "explicit-state BFS over real objects"
 SEQ = "bounded-exhaustive enumeration of executions of the real code"
 
+def C(level, technique, text, note, ref):
+    return dict(level=level, technique=technique, text=text, note=note, ref=ref)
+
+
+ORACLE = ("Trusted: the independent wire codec and spec-level reference decoder (mc/jwire, "
+          "mc/jspec; cross-checked against rdf_pb2 at setup and against pyjelly on every run); "
+          "values outside the small colliding alphabets are assumed to behave alike.")
+
 CHECKS = {
-    "C05": dict(
-        level="model_checking",
-        technique="explicit-state model checking: BFS to fixpoint over the real "
-        "LookupEncoder/LookupDecoder (symmetry-reduced) and TermEncoder/Decoder",
-        text="Every reachable joint writer/reader table state (per index rule, sizes 1..6 quick / "
-        "1..8 thorough, n+2 keys, modulo key renaming) is visited and the mirror/bounds "
-        "oracle is evaluated on every transition of the real code; the search closes, so the "
-        "verdict covers histories of any length over those sizes.",
-        note="Trusted: the symmetry argument (validated against the unreduced search for small n); "
-        "sizes above the bound are assumed to behave alike (size-generic code).",
-        ref="6 C05",
-    ),
+    "C01": C("model_checking",
+             "bounded-exhaustive enumeration of statement sequences x configurations on the real "
+             "API + explicit-state BFS over the joint real Stream/Decoder state",
+             "Every statement sequence up to length 3 (thorough 4-5) over six colliding 6-statement "
+             "scopes x 3 stream classes x presets x frame sizes x framings x all generic write and "
+             "read entry points is round-tripped through the real code (count asserted against the "
+             "closed form); a BFS over deep-copied real Stream+Decoder objects reaches eviction / "
+             "elision states only long histories reach.", ORACLE, "6 C01"),
+    "C02": C("exploration",
+             "bounded-exhaustive enumeration of insertion sequences x configurations through the "
+             "rdflib integration",
+             "Every insertion sequence up to length 3 (thorough 4) over five RDF 1.1 scopes x "
+             "Graph/Dataset with Triple/Quad/GraphStream x presets x frame sizes x flat/grouped x "
+             "delimited/non-delimited x all rdflib write and read entry points; sets compared term "
+             "by term.", ORACLE + " rdflib's own set order/dedup is not judged.", "6 C02"),
+    "C03": C("exploration",
+             "bounded-exhaustive enumeration; every emitted byte string decoded by an independent "
+             "reference decoder",
+             "All byte strings of the C01 and C02 spaces are decoded by jwire+jspec alone in strict "
+             "mode and compared with the input, which makes symmetric writer/reader mistakes "
+             "visible.", ORACLE, "6 C03"),
+    "C04": C("model_checking",
+             "stateless deviation-bounded exploration of the choice points of a reference producer "
+             "(all executions with <= 1, thorough <= 2 deviations), traces replayed against the "
+             "real parsers",
+             "A spec-level reference encoder exposes every producer freedom as a choice point; the "
+             "default execution and every execution with 1 (2) deviations is generated for every "
+             "sequence/physical type/sizing, validated by the reference decoder and parsed by all "
+             "six pyjelly entry points.", ORACLE + " Producer freedoms outside the modelled kinds "
+             "(listed in the evidence) are not covered.", "6 C04"),
+    "C05": C("model_checking",
+             "explicit-state model checking: BFS to fixpoint over the real "
+             "LookupEncoder/LookupDecoder (symmetry-reduced) and TermEncoder/Decoder",
+             "Every reachable joint writer/reader table state (per index rule, sizes 1..6 quick / "
+             "1..8 thorough, n+2 keys, modulo key renaming) is visited and the mirror/bounds "
+             "oracle is evaluated on every transition of the real code; the search closes, so the "
+             "verdict covers histories of any length over those sizes.",
+             "Trusted: the symmetry argument (validated against the unreduced search for small n); "
+             "sizes above the bound are assumed to behave alike (size-generic code).", "6 C05"),
+    "C06": C("exploration", "exhaustive enumeration of the finite configuration lattice",
+             "All points of stream class x 8 logical types x delimited x frame size x 7 flows x "
+             "entry points x inputs are executed; each is classified raised / complete / "
+             "violation by the reference decoder and a read-back.", ORACLE +
+             " Quad input written through a TRIPLES stream (logical GRAPHS) is judged on its "
+             "triples only.", "6 C06"),
+    "C07": C("exploration",
+             "exhaustive enumeration of all 2^(n-1) frame partitions of each base stream and of "
+             "all short graph/dataset sequences",
+             "Every re-partition of the row sequence (plain, with empty frames, with metadata) of "
+             "each base stream is parsed flat and grouped by both integrations; every sequence of "
+             "<= 3 graphs/datasets is written through the grouped entry point.", ORACLE, "6 C07"),
+    "C08": C("exploration", "exhaustive enumeration of all 2^24 three-byte headers + real streams",
+             "All 16,777,216 headers are classified by a ground-truth grammar of the wire format "
+             "and compared with delimited_jelly_hint; real streams for every stream-name length "
+             "and option combination are written in both modes, re-cut, and parsed.",
+             "Trusted: the grammar in mc/checks/c08.py (disjointness asserted on every run).",
+             "6 C08"),
+    "C09": C("fault_enumeration",
+             "deviation-bounded exploration of the read-size answers of a fault-injecting source",
+             "All uniform schedules, the cube of the first three read sizes, and every schedule "
+             "with <= 1 (thorough 2) short reads of a non-seekable raw source (also wrapped in "
+             "BufferedReader), plus file/gzip/BytesIO, for every base stream and parser.",
+             ORACLE + " Sources are io-contract doubles, not kernel sockets.", "6 C09"),
+    "C10": C("fault_enumeration", "exhaustive enumeration of every truncation point",
+             "Every byte offset of every base stream x seekable/non-seekable x flat/grouped x both "
+             "integrations; yielded items must be a prefix containing all fully delivered frames.",
+             ORACLE, "6 C10"),
+    "C11": C("model_checking",
+             "exhaustive exploration of the producer/serializer/consumer pipeline states and of "
+             "all stall points of the byte source",
+             "The product of an instrumented input generator, the real serializer generator and a "
+             "consumer is observed at every pull and yield for every sequence x frame size x entry "
+             "point; every (stream, frame boundary) stall point is executed for raw, buffered and "
+             "seekable sources.", ORACLE, "6 C11"),
+    "C12": C("model_checking",
+             "exhaustive interleaving enumeration + preemption-bounded stateless exploration of "
+             "real threads under a controlled scheduler",
+             "All merges of the step sequences of workload pairs (thorough: triples); two real "
+             "threads scheduled at line granularity inside pyjelly under every schedule with <= 1 "
+             "(thorough 2) preemptions, failing schedules replayed twice; all histories of prior "
+             "activity up to depth 2 (3); fresh processes under a list of hash seeds.",
+             "Trusted: C code is atomic under the GIL; hash seeds are a finite list.", "6 C12"),
+    "C13": C("exploration", "exhaustive enumeration of the header / type-pair / strictness lattices",
+             "Header lattice written by the real Stream API and compared writer-wire-reader field "
+             "by field; all 4x8 type pairs on construction and on hand-built streams; the strict "
+             "acceptance table; table-size and version limits, on all six parsers.", ORACLE,
+             "6 C13"),
+    "C14": C("exploration", "bounded-exhaustive enumeration of binding lists x statement sequences",
+             "All ordered binding lists up to length 2 (3) x statement sequences x both "
+             "integrations x three physical types x prefix tables x declarations on/off; wire, "
+             "reader events, sinks/graphs and re-serialisation compared.",
+             ORACLE + " rdflib's own default bindings are compared relative to the source graph.",
+             "6 C14"),
+    "C15": C("exploration", "bounded-exhaustive differential enumeration",
+             "Every RDF 1.1 sequence x configuration is serialised by both integrations "
+             "(byte-identical?) and every byte string (also reference-encoder streams) goes through "
+             "all six parsers, which must agree within and across integrations.",
+             "Differential oracle: no reference needed beyond input correspondence.", "6 C15"),
+    "C16": C("fault_enumeration", "exhaustive enumeration of (row position x violation class) mutants",
+             "Every catalogued spec violation is injected at every applicable row of every base "
+             "stream; a mutant counts only if the reference decoder rejects it; all parsers must "
+             "raise having yielded only the decoding of the valid prefix.", ORACLE, "6 C16"),
+    "C17": C("fault_enumeration",
+             "bounded-exhaustive enumeration of byte-string neighbourhoods with watchdogs",
+             "All byte strings up to length 2, all strings up to length 4 (5) over a structural "
+             "alphabet, all one-point (and some two-point) mutations of seed streams, and a hostile "
+             "catalogue, through every entry point from seekable and non-seekable sources, under a "
+             "per-case timer, RSS and worker-liveness watchdog.",
+             "'Any byte string' is decided for these neighbourhoods only; memory = peak RSS.",
+             "6 C17"),
+    "C18": C("exploration", "exhaustive enumeration of overflowing statements x presets x histories",
+             "All 512 statements over 5 IRIs + 3 typed literals and nested quoted triples with "
+             "9..27 names x every preset where a table overflows x histories x stream classes; "
+             "either refused or decoded (reference decoder) to exactly the input.", ORACLE, "6 C18"),
+    "C19": C("exploration", "bounded-exhaustive enumeration with a row-by-row audit",
+             "Every stream of the C01 and C02 spaces is audited with the reference decoder's trail: "
+             "no entry for a resident string, equal terms elided, zero forms used, one graph start "
+             "per run, size <= naive.", ORACLE + " Only the 'compact' direction is demanded.",
+             "6 C19"),
+    "C20": C("fault_enumeration",
+             "exhaustive enumeration of (sequence x position x slot x cause) rejection points",
+             "A catch-and-continue caller drives every sequence up to length 3 (4) with one "
+             "statement made unencodable at every position/slot/cause, on three stream classes and "
+             "both integrations; output must decode to the accepted statements or the stream must "
+             "refuse further use.", ORACLE, "6 C20"),
 }
 
 NOT_YET: dict[str, str] = {}
